@@ -4,6 +4,7 @@ from lib.core import Case
 from lib import cbuild
 
 ID = "C13"
+NOT_CLAIMED = "temporarily withdrawn: model being updated to the two URI repairs (7bf9897, 3dbc364)"
 LEAN_MODULES = ["AwsVerif.Props.C13"]
 COMPONENT = "uri"
 # a parse result on a string the property does not constrain (outside Comp.ok) that differs from
